@@ -554,6 +554,24 @@ def s_contexts(E, tier):
             E.viol('C09', 'conflict', 'two configs declaring data:src with n=1 and n=2 in one namespace built a chain (resolved by order)', 'c1 / c3', key='F9b')
         except Exception:
             pass
+    # round 7: ... also when the two files carry the same base name (two directories, JSON next to YAML), at top level and under a namespace
+    for variant in ('dirs', 'reverse', 'json-yaml', 'namespace'):
+        d3 = E.dir()
+        one = E.write(d3 / 'one', 'model', {'tasks': [f'{LIB}.Src'], 'n': 1})
+        two = E.write(d3 / 'one', 'model', {'tasks': [f'{LIB}.Src'], 'n': 2}, ext='yaml') if variant == 'json-yaml' else \
+            E.write(d3 / 'two', 'model', {'tasks': [f'{LIB}.Src'], 'n': 2})
+        order = [two, one] if variant == 'reverse' else [one, two]
+        uses = [f'{p_} as ns' for p_ in order] if variant == 'namespace' else [str(p_) for p_ in order]
+        top3 = E.write(d3, 'top', {'uses': uses})
+        E.tried += 1
+        with quiet():
+            try:
+                ch3 = Config(d3 / 'data', top3).chain()
+                got3 = {n_: t_.params['n'] for n_, t_ in ch3.tasks.items()}
+                E.viol('C09', 'conflict', f'two config files with the same base name ({variant}: {[str(p_.relative_to(d3)) for p_ in order]}) declaring data:src with n=1 and n=2 in one '
+                       f'namespace built a chain, resolved by order: {got3}', variant, key='conflict-same-base-name')
+            except Exception:
+                pass
     # a dict context with `uses` is not consumed by its first use
     E.tried += 1
     ctx_uses = {'uses': [str(E.write(d2, 'ctxfile', {'n': 3}))]}
@@ -569,7 +587,8 @@ def s_multichain(E, tier):
     from taskchain import Config, MultiChain
     from contracts.pipelines import lib
     d = E.dir()
-    specs = {'c1': {'n': 2}, 'c2': {'n': 2, 'factor': 3}, 'c3': {'n': 2}, 'c4': {'n': 3, 'factor': 3}}
+    specs = {'c1': {'n': 2}, 'c2': {'n': 2, 'factor': 3}, 'c3': {'n': 2}, 'c4': {'n': 3, 'factor': 3},
+             'c5': {'n': 2, 'factor': 2}}      # round 7: the default of `factor` written out - the same computation as c1 / c3
     files = {k: E.write(d, k, cfg(**v)) for k, v in specs.items()}
     E.tried += 1
     with quiet():
@@ -1396,6 +1415,30 @@ def s_no_shared_values(E, tier):
         E.viol('C09', 'no_sharing', f'a second config tree built from the same context sees {ta2!r} for a::tags (the first tree\'s task value was changed in place)', 'second', key='second-tree-sees-mutation')
     if tb2 != ['global', {'k': [1]}] or tb != ['global', {'k': [1]}]:
         E.viol('C09', 'no_sharing', f'b::tags = {tb!r} / {tb2!r}; the global context entry is [\'global\', {{\'k\': [1]}}]', 'b', key='other-namespace-affected')
+    # round 7: a LIST of contexts naming the same namespace: merging them leaves each caller-owned context as it was, in either order,
+    # and a config built afterwards from one of them alone sees that context's values only
+    def seen(chain_):
+        p_ = chain_['a::model:agg:total'].params
+        return {'offset': p_['offset'], 'tags': p_['tags']}
+    for order in ((0, 1), (1, 0)):
+        E.tried += 1
+        ctxs = [{'for_namespaces': {'a': {'total_offset': 1, 'tags': ['from-A']}}}, {'for_namespaces': {'a': {'total_offset': 5}}}]
+        ctxs0 = copy.deepcopy(ctxs)
+        lst = [ctxs[order[0]], ctxs[order[1]]]
+        with quiet():
+            try:
+                merged = seen(Config(d / f'data_m{order[0]}', top, context=lst).chain())
+                alone = [seen(Config(d / f'data_m{order[0]}_{i}', top, context=ctxs[i]).chain()) for i in (0, 1)]
+            except Exception as e:
+                merged, alone = f'{type(e).__name__}: {e}', None
+        want_merged = {'offset': ctxs0[order[1]]['for_namespaces']['a']['total_offset'], 'tags': ['from-A']}
+        want_alone = [{'offset': 1, 'tags': ['from-A']}, {'offset': 5, 'tags': ['file']}]
+        if ctxs != ctxs0:
+            E.viol('C09', 'no_sharing', f'building a config from a list of contexts changed a caller-owned context: {ctxs} (was {ctxs0})', order, key='merge-mutates-context')
+        if merged != want_merged:
+            E.viol('C09', 'no_sharing', f'contexts {[ctxs0[i] for i in order]} (later over earlier) give a:: parameters {merged}, expected {want_merged}', order, key='merge-precedence')
+        if alone is not None and alone != want_alone:
+            E.viol('C09', 'no_sharing', f'after the merged build, configs built from each context alone see {alone}; each context alone gives {want_alone}', order, key='merge-leaks-into-context')
 
 
 def s_none_param(E, tier):
@@ -1809,6 +1852,44 @@ def s_input_names(E, tier):
     if wired != ['g:a']:
         E.viol('C10', 'access', f"top-level task with input 'a', tasks g:a (top level) and n::h:a (mounted): wired to {wired}; inside its own (empty) namespace the "
                'reference identifies g:a uniquely', 'top-level reference', key='top-level-reference')
+    # round 7: a dependant mounted under a namespace addresses its sibling by the short form also when the sibling's name (or group)
+    # merely begins with the text of the namespace - with and without a same-named task at top level
+    for twin in (False, True):
+        for group in (None, 'training'):
+            from taskchain.parameter import Parameter
+
+            class D(Task):
+                Meta = type('Meta', (), dict({'name': 'training_data'}, **({'task_group': group} if group else {})))
+
+                def run(self) -> str:
+                    return 'sibling'
+
+            class Twin(Task):      # another computation (it has a parameter) that happens to carry the same name at top level
+                Meta = type('Meta', (), dict({'name': 'training_data', 'parameters': [Parameter('k', default=1)]}, **({'task_group': group} if group else {})))
+
+                def run(self) -> str:
+                    return 'twin'
+            ref = f'{group}:training_data' if group else 'training_data'
+
+            class Model(Task):
+                Meta = type('Meta', (), {'name': 'model', 'input_tasks': [ref]})
+
+                def run(self) -> str:
+                    return self.input_tasks[ref].value
+            E.tried += 1
+            with quiet():
+                try:
+                    base_ = E.dir()
+                    sub = Config(base_, name='sub', namespace='train', data={'tasks': [D, Model]})
+                    ch = Config(base_, name='top', data={'tasks': [Twin] if twin else [], 'uses': [sub]}).chain()
+                    wired = sorted(t.fullname for t in ch['train::model'].input_tasks.values())
+                    val = ch['train::model'].value
+                except Exception as e:
+                    wired, val = f'{type(e).__name__}: {e}', None
+            want = 'train::' + ref
+            if wired != [want] or val != 'sibling':
+                E.viol('C10', 'access', f"`train::model` with input '{ref}'" + (' and a same-named task at top level' if twin else '') + f': wired to {wired}, value {val!r}; '
+                       f'from inside namespace `train` the short form identifies {want}', (twin, group), key='namespace-text-prefix')
 
 
 def s_golden_objects(E, tier):
